@@ -91,8 +91,8 @@ std::string readBack(const World& W)
 
 // ---------------------------------------------------------------- observed calls
 const char* OBS10[] = {"covmat", "covmat-optim", "covmat-symoptim", "kriging", "xvalid", "vario", "vario-fit", "migrate", "frombox", "addrandom",
-                       "simgauss", "simtub", "simtub-nc", "simfft", "kcalc", "kcalc", "kriging"};
-const int NOBS10 = 17;
+                       "simgauss", "simtub", "simtub-nc", "simfft", "kcalc", "kcalc", "kriging", "kcalc", "kcalc", "kriging"};
+const int NOBS10 = 20;
 const char* OBS13[] = {"simtub", "simtub-nc", "simfft", "gibbs", "simtub", "simtub-nc"};
 const int NOBS13 = 6;
 
@@ -196,10 +196,12 @@ Observed observe(World& W, const Op& op, int seedShift, Ctx* c, bool judge13, lo
       K.setRHS(&Sigma0B, X0p);
       K.setVar(&Sigma00B);
       K.setData(&Z2, withDrift ? nullptr : &means2);
-      int nsteps = 2 + (int)rr.below(6);
+      int nsteps = 3 + (int)rr.below(8);
       for (int sstep = 0; sstep < nsteps; sstep++)
       {
-        switch (rr.below(9))
+        long what = rr.below(9);
+        if (c) c->fp("k" + std::to_string(what));
+        switch (what)
         {
           case 0: K.setData(rr.chance(0.5) ? &Z : &Z2, mp); break;
           case 1: K.setLHS(rr.chance(0.5) ? &Sigma : &SigmaB, Xp); break;
@@ -217,11 +219,25 @@ Observed observe(World& W, const Op& op, int seedShift, Ctx* c, bool judge13, lo
       for (int i = 3; i > 0; i--) std::swap(order[i], order[rr.below(i + 1)]);
       for (int q = 0; q < 4; q++)
       {
+        if (c) c->fp("final" + std::to_string(order[q]));
         if (order[q] == 0) K.setLHS(&Sigma, Xp);
         else if (order[q] == 1) K.setRHS(&Sigma0, X0p);
         else if (order[q] == 2) K.setVar(&Sigma00);
         else K.setData(&Z, mp);
-        if (rr.chance(0.3)) (void)K.getEstimation();
+        // getters between the updates: each lazily cached matrix is computed on a half-updated object
+        if (rr.chance(0.5))
+        {
+          long g = rr.below(5);
+          if (c) c->fp("get" + std::to_string(g));
+          switch (g)
+          {
+            case 0: (void)K.getEstimation(); break;
+            case 1: (void)K.getStdv(); break;
+            case 2: if (withDrift) (void)K.getPostMean(); else (void)K.getLambda0(); break;
+            case 3: (void)K.getVarianceZstar(); break;
+            default: (void)K.getLambda(); break;
+          }
+        }
       }
       if (c) c->count("fault.incremental-updates");
     }
@@ -447,7 +463,7 @@ int freeTargets(const World& W)
 
 bool admissibleObs(const std::string& k, const WorldSpec& w)
 {
-  if (k == "simfft") return w.outKind == 0 && w.nvar == 1 && w.nfex == 0 && w.ndim >= 2;
+  if (k == "simfft") return w.outKind == 0 && w.nvar == 1 && w.nfex == 0 && w.ndim == 2; // 3-D FFT grids cost tens of seconds under ASan
   if (k == "simtub" || k == "simtub-nc") return w.nfex == 0;
   if (k == "vario-fit") return w.nvar == 1;
   if (k == "gibbs") return w.nvar == 1 && w.nfex == 0 && w.selIn == 0 && w.undefIn == 0;
@@ -776,6 +792,7 @@ bool globalOnly(const std::string& k)
 void execWorld(const Plan& p, Ctx& c, bool bare, const std::string& prop)
 {
   childInit();
+  g_cpuBudgetS = 90; // simulations on dilated 3-D grids are legitimately heavy under ASan
   World W;
   bool built = false;
   std::string rb0;
@@ -971,6 +988,12 @@ struct WorldWorkload : Workload
     for (int t = 0; t < 60; t++)
     {
       k = (id == "C13") ? OBS13[r.below(NOBS13)] : OBS10[r.below(NOBS10)];
+      if (k == "kcalc" && !admissibleObs(k, spec))
+      {
+        // shape the world for the incremental-object recipe: one variable, no external drift, no undefined datum
+        w.i[2] = 0; w.i[4] = 1; w.i[8] = 1;
+        spec = specFromOp(w);
+      }
       if (admissibleObs(k, spec)) break;
       k = (id == "C13") ? "simtub-nc" : "kriging";
     }
